@@ -14,6 +14,7 @@ mod permgen;
 mod perms;
 mod plan;
 mod runner;
+mod sdkclients;
 mod wire;
 
 use runner::*;
@@ -31,6 +32,7 @@ fn dispatch_worker(wa: WorkerArgs) -> i32 {
         "catalogue" => worker_main(&catalogue::Catalogue, wa),
         "wire" => worker_main(&wire::Wire, wa),
         "creds" => worker_main(&creds::Creds, wa),
+        "sdkclients" => worker_main(&sdkclients::SdkClients, wa),
         "conc" => worker_main(&conc::Conc, wa),
         "crash" => worker_main(&crash::Crash, wa),
         "journal-tamper" => worker_main(&journal::Tamper, wa),
@@ -54,6 +56,7 @@ fn dispatch_replay(check: &str, case: &Value, p: &Params) -> common::Outcome {
         "catalogue" => replay_case(&catalogue::Catalogue, case, p),
         "wire" => replay_case(&wire::Wire, case, p),
         "creds" => replay_case(&creds::Creds, case, p),
+        "sdkclients" => replay_case(&sdkclients::SdkClients, case, p),
         "conc" => replay_case(&conc::Conc, case, p),
         "crash" => replay_case(&crash::Crash, case, p),
         "journal-tamper" => replay_case(&journal::Tamper, case, p),
